@@ -57,6 +57,11 @@ func main() {
 				fmt.Fprintln(os.Stderr, "simworker: write response:", eerr)
 				os.Exit(2)
 			}
+			if resp.Panic != "" {
+				// a panic is a process death: the unwinding already ran gengo's deferred functions,
+				// the report is out, nothing of this process may serve another run
+				os.Exit(0)
+			}
 		}
 		if err != nil {
 			return
